@@ -3,6 +3,8 @@ import FFVerif.Props.C07
 import FFVerif.Pins.pinGetFFDerivative
 import FFVerif.Pins.pinGradControlMatrix
 import FFVerif.Pins.pinInfidelityDerivative
+import FFVerif.Pins.C11_gradient_source_shape
+import FFVerif.Pins.C11_gradient_einsum_shape
 #print axioms FFVerif.C11.liouvilleA_matrix_element
 #print axioms FFVerif.C11.liouvilleA_exact
 #print axioms FFVerif.C11.liouvilleA_masked_error
@@ -31,11 +33,11 @@ import FFVerif.Pins.pinInfidelityDerivative
 #print axioms FFVerif.C11.sensitivity_term
 #print axioms FFVerif.C11.sensitivity_term_fails_at_zero
 #print axioms FFVerif.C11.sensitivity_real
-#print axioms FFVerif.C11.gradient_source_shape
-#print axioms FFVerif.C11.gradient_einsum_shape
 #print axioms FFVerif.C07.cleanup_freq
 #print axioms FFVerif.C07.deriv_spec
 #print axioms FFVerif.C07.served_value_is_fresh
 #print axioms FFVerif.Pins.pinGetFFDerivative
 #print axioms FFVerif.Pins.pinGradControlMatrix
 #print axioms FFVerif.Pins.pinInfidelityDerivative
+#print axioms FFVerif.C11.gradient_source_shape
+#print axioms FFVerif.C11.gradient_einsum_shape
